@@ -160,6 +160,7 @@ func init() {
 		{name: "RemoveEndnote(every own note)", kind: "enrm"},
 		{name: "SetFootnoteConfig", kind: "fncfg"},
 		{name: "SetTitle", kind: "title"},
+		{name: "work on another document (build, save, reopen, render as template)", kind: "other"},
 		{name: "AddParagraph({{#image pic}})", kind: "placeholder"},
 		{name: "render-template(pic=png)", kind: "render"},
 		{name: "reopen", kind: "reopen"},
@@ -310,6 +311,8 @@ func (i *c02Inst) Apply(op int) (string, []rep.Violation) {
 			err = i.doc.SetFootnoteConfig(document.DefaultFootnoteConfig())
 		case "title":
 			err = i.doc.SetTitle("T")
+		case "other":
+			interfereRaw()
 		case "placeholder":
 			i.doc.AddParagraph("{{#image pic}}")
 			i.nph++
@@ -406,9 +409,9 @@ func runC02(r *rep.Run) {
 	r.Bounds["seeds"] = n
 	r.Bounds["alphabet_without_seeds"] = c02SeedBase
 	r.Merge(seqx.Search("C02", seqx.Opts{Depth: depth, Deadline: r.Deadline, Args: c02Args{MaxOthers: maxOthers}}))
-	narrow := 6
+	narrow := 5
 	if r.Tier == "thorough" {
-		narrow = 8
+		narrow = 7
 	}
 	r.Bounds["narrow_depth_including_seed"] = narrow
 	r.Bounds["narrow_alphabet"] = "AddHeader(default), AddFooter(default), AddFooter(first), AddImageFromData(png), AddListItem, AddFootnote, RemoveFootnote(every own note); fresh document only"
